@@ -184,7 +184,34 @@ def bounded_search(depth, seed, random_n):
     n = 0
     samples = []
 
+    def final_state(hist, pos):
+        """observable state at the end of the history (+ a clock tick), with / without a restart at `pos`"""
+        import random as _r
+        _r.seed(12345)
+        w = qh.World()
+        try:
+            for i, op in enumerate(list(hist) + [("run",), ("clock",), ("run",)]):
+                if i == pos:
+                    w.rebind(pickle.loads(pickle.dumps(w.wq)))
+                if qh.apply(w, op) is False:
+                    return None
+            jobs = {jid: (j.done, j.error, j.priority, j.channel) for jid, j in w.wq.id2job.items()}
+            queued = {c: sorted((x.priority, x.serial) for x in q if not x.done) for c, q in w.wq.channel2q.items() if any(not x.done for x in q)}
+            return jobs, queued, w.wq.count
+        finally:
+            for g in list(w.pulling.values()):
+                if not g.dead:
+                    g.kill(block=False)
+            import gevent
+            gevent.sleep(0)
+
     def check(hist, pos):
+        # a restart is not observable: same jobs, same outcomes (timeouts included), same queues as without it;
+        # only histories without a blocked or holding worker at the restart are compared (their connections end with it)
+        if not any(o[0] == "pull" for o in hist[:pos]):
+            a, b = final_state(hist, None), final_state(hist, pos)
+            if a is not None and b is not None and a != b:
+                return f"a restart at position {pos} is observable at the end of the history: without it {a}, with it {b}"
         w = qh.World()
         try:
             for i, op in enumerate(hist):
@@ -240,6 +267,14 @@ def bounded_search(depth, seed, random_n):
                     return {"n": n, "failure": {"history": [list(o) for o in hist], "restore_at": pos, "detail": msg}, "samples": samples}
             if n % 4001 < 3 and len(samples) < 3:
                 samples.append([list(o) for o in hist])
+    # targeted family: jobs whose timeouts are not in insertion order, a restart, then the clock passes the short one
+    for touts in ((1000.0, 5.0), (5.0, 1000.0), (1000.0, 5.0, 70.0), (70.0, 1000.0, 5.0)):
+        hist = [("add", "a", 0, t) for t in touts]
+        for pos in range(1, len(hist) + 1):
+            n += 1
+            msg = check(hist, pos)
+            if msg:
+                return {"n": n, "failure": {"history": [list(o) for o in hist], "restore_at": pos, "detail": msg}, "samples": samples}
     # targeted family: an id that was killed and added again keeps its old slot in id2job but gets a new serial
     A = ("add", "a", 0)
     for k in (0, 1):
